@@ -459,6 +459,8 @@ func verifReplayOne(path string, funcs map[string]func()) {
 		}()
 		f()
 	}()
+	var ms0 runtime.MemStats
+	runtime.ReadMemStats(&ms0)
 	var how string
 	select {
 	case how = <-done:
@@ -466,6 +468,17 @@ func verifReplayOne(path string, funcs map[string]func()) {
 		how = "hang"
 	}
 	verifSchedRelease()
+	if rec.Obligation == "ALLOC" {
+		// the engine's implicit obligation: an input makes the package allocate far beyond the
+		// flow-control window (the counterexample asks for more than 64 MiB)
+		var ms1 runtime.MemStats
+		runtime.ReadMemStats(&ms1)
+		if ms1.TotalAlloc-ms0.TotalAlloc > 32<<20 {
+			verifState.mu.Lock()
+			verifState.failed = append([]string{"ALLOC"}, verifState.failed...)
+			verifState.mu.Unlock()
+		}
+	}
 	verifState.mu.Lock()
 	defer verifState.mu.Unlock()
 	verifState.finished = true
